@@ -478,14 +478,15 @@ def step (fx : Fixes) (s : St) : Label → St
         let s := setTask s t { x with pc := .done }
         if s.closed then s else
         let s := releaseAcquired s x.key (.conn c)
-        if pool then
+        -- a connection that was lost while in use has `protocol.should_close`: it is closed, not pooled
+        if pool && connOpen s c then
           -- `_conns[key].append((protocol, monotonic()))`; the keep-alive sweep is scheduled if it is not
           { s with idle := s.idle ++ [c], timer := true,
                    conns := s.conns.modify c (fun y => { y with usedAt := s.now }) }
         else closeConn s c
       | _ => s
     | none => s
-  | .lose c => if c ∈ s.idle then closeConn s c else s
+  | .lose c => if c ∈ s.idle ∨ Slot.conn c ∈ s.acquired then closeConn s c else s
   | .close => closeAll fx s
   | .shuffle p => { s with perm := p }
   | .advance d => { s with now := s.now + d }
